@@ -258,9 +258,9 @@ impl Prop for C14 {
     }
     fn campaigns(&self, _ctx: &Ctx) -> Vec<Campaign> {
         vec![
-            Campaign { name: "svgen", kind: Kind::Random { quick: 250, thorough: 3000 }, tape_len: 500 },
+            Campaign { name: "svgen", kind: Kind::Random { quick: 1000, thorough: 6000 }, tape_len: 500 },
             Campaign { name: "corpus", kind: Kind::Random { quick: 150, thorough: 2000 }, tape_len: 8 },
-            Campaign { name: "included", kind: Kind::Random { quick: 200, thorough: 2500 }, tape_len: 400 },
+            Campaign { name: "included", kind: Kind::Random { quick: 800, thorough: 5000 }, tape_len: 400 },
             Campaign { name: "ppfault", kind: Kind::Random { quick: 1500, thorough: 15000 }, tape_len: 8 },
         ]
     }
